@@ -1,9 +1,364 @@
+import RsMatterVerif.Model.Tlv
+import RsMatterVerif.Model.TlvSchema
 import Driver.Util
-/-! Driver for C16: not built yet. -/
+/-! Driver for C16: runs `Model/Tlv` on the harness lines and evaluates the property's
+specification on the *implementation's* outputs (never `panic`, never `hang`, reported lengths and
+slices inside the input, iterators finite and ending at the first error, re-encoding reproduces the
+bytes, written trees / derived structures decode back to what was written). -/
 namespace Driver.C16
+open Tlv
 
-def run : IO UInt32 := do
-  IO.eprintln "C16: driver not built yet"
-  return 2
+/-! ### text helpers -/
+def hexDigit (c : Char) : Option Nat :=
+  if '0' ≤ c ∧ c ≤ '9' then some (c.toNat - '0'.toNat)
+  else if 'a' ≤ c ∧ c ≤ 'f' then some (c.toNat - 'a'.toNat + 10)
+  else none
+
+def unhexL : List Char → Option Bytes
+  | [] => some []
+  | a :: b :: r => do
+    let x ← hexDigit a
+    let y ← hexDigit b
+    let t ← unhexL r
+    pure (UInt8.ofNat (x * 16 + y) :: t)
+  | _ => none
+
+def unhex (s : String) : Option Bytes := if s = "-" then some [] else unhexL s.toList
+
+def hexChar (n : Nat) : Char := if n < 10 then Char.ofNat (48 + n) else Char.ofNat (87 + n)
+def hex (b : Bytes) : String :=
+  if b.isEmpty then "-" else String.ofList (b.flatMap fun x => [hexChar (x.toNat / 16), hexChar (x.toNat % 16)])
+
+def errName : Err → String
+  | .mismatch => "mismatch" | .invalidData => "invalidData" | .invalid => "invalid"
+  | .notFound => "notFound" | .depth => "depth"
+
+def fmtRes {α : Type} (r : Res α) (f : α → String) : String :=
+  match r with
+  | .ok a => let s := f a; if s = "" then "ok" else "ok:" ++ s
+  | .err e => "e:" ++ errName e
+  | .panic .fuel => "hang"
+  | .panic _ => "panic"
+
+def tagTok : Tag → String
+  | .anon => "a" | .ctx n => s!"c:{n}" | .commonPrf16 n => s!"cp16:{n}" | .commonPrf32 n => s!"cp32:{n}"
+  | .implPrf16 n => s!"ip16:{n}" | .implPrf32 n => s!"ip32:{n}"
+  | .fullQual48 v p t => s!"q48:{v}:{p}:{t}" | .fullQual64 v p t => s!"q64:{v}:{p}:{t}"
+
+def primTok : Prim → String
+  | .sint w i => s!"s{w.bytes}:{i}" | .uint w n => s!"u{w.bytes}:{n}"
+  | .bool true => "T" | .bool false => "F"
+  | .f32 b => s!"f4:{b}" | .f64 b => s!"f8:{b}"
+  | .utf8 w b => s!"t{w.bytes}:{hex b}" | .str w b => s!"o{w.bytes}:{hex b}" | .null => "N"
+
+def kindTok : Kind → String
+  | .struct => "{S" | .array => "{A" | .list => "{L"
+
+def tvalTok : TVal → String
+  | .prim p => primTok p | .cont k => kindTok k | .endCnt => "}"
+
+mutual
+def valueToks : Value → List String
+  | .leaf t p => [tagTok t, primTok p]
+  | .cont t k cs => [tagTok t, kindTok k] ++ valuesToks cs ++ ["}"]
+def valuesToks : Values → List String
+  | .nil => []
+  | .cons v vs => valueToks v ++ valuesToks vs
+end
+
+def treeStr (v : Value) : String := " ".intercalate (valueToks v)
+
+/-! ### tree parser (tokens of the harness) -/
+def parseTag (s : String) : Option Tag :=
+  match s.splitOn ":" with
+  | ["a"] => some .anon
+  | ["c", n] => n.toNat?.map .ctx
+  | ["cp16", n] => n.toNat?.map .commonPrf16
+  | ["cp32", n] => n.toNat?.map .commonPrf32
+  | ["ip16", n] => n.toNat?.map .implPrf16
+  | ["ip32", n] => n.toNat?.map .implPrf32
+  | ["q48", v, p, t] => do pure (.fullQual48 (← v.toNat?) (← p.toNat?) (← t.toNat?))
+  | ["q64", v, p, t] => do pure (.fullQual64 (← v.toNat?) (← p.toNat?) (← t.toNat?))
+  | _ => none
+
+def widthOf (s : String) : Option Width :=
+  match s with
+  | "1" => some .w1 | "2" => some .w2 | "4" => some .w4 | "8" => some .w8 | _ => none
+
+/-- a leaf token; the writer-method forms (`ms*`, `mu*`, `mo`, `mt`, `co`, `ct`, `ds`, `du`) are
+normalised to the explicit form the method produces (model of write.rs `i16..u64`, `str`, `utf8`,
+`str_cb`, `utf8_cb`) -/
+def parsePrim (s : String) : Option Prim :=
+  match s.splitOn ":" with
+  | ["T"] => some (.bool true)
+  | ["F"] => some (.bool false)
+  | ["N"] => some .null
+  | [k, v] =>
+    if k = "f4" then v.toNat?.map .f32
+    else if k = "f8" then v.toNat?.map .f64
+    else if k = "ds" then v.toInt?.map (.sint .w1)
+    else if k = "du" then v.toNat?.map (.uint .w1)
+    else if k = "ms2" ∨ k = "ms4" ∨ k = "ms8" then v.toInt?.map Prim.mkSint
+    else if k = "mu2" ∨ k = "mu4" ∨ k = "mu8" then v.toNat?.map Prim.mkUint
+    else if k = "mo" then (unhex v).map Prim.mkStr
+    else if k = "mt" then (unhex v).map Prim.mkUtf8
+    else if k = "co" then (unhex v).map fun b => .str (if b.length ≤ 255 then .w1 else .w2) b
+    else if k = "ct" then (unhex v).map fun b => .utf8 (if b.length ≤ 255 then .w1 else .w2) b
+    else
+      let kind := k.take 1 |>.toString
+      match widthOf (k.drop 1).toString with
+      | none => none
+      | some w =>
+        if kind = "s" then v.toInt?.map (.sint w)
+        else if kind = "u" then v.toNat?.map (.uint w)
+        else if kind = "t" then (unhex v).map (.utf8 w)
+        else if kind = "o" then (unhex v).map (.str w)
+        else none
+  | _ => none
+
+/-- recursive descent on the token list; fuel = number of tokens -/
+def parseNodes : Nat → List String → Bool → Option (Values × List String)
+  | 0, _, _ => none
+  | _ + 1, [], close => if close then none else some (.nil, [])
+  | f + 1, t :: rest, close =>
+    if t = "}" then (if close then some (.nil, rest) else none)
+    else do
+      let tag ← parseTag t
+      match rest with
+      | [] => none
+      | v :: rest' =>
+        if v.startsWith "{" then do
+          let k ← (if v = "{S" then some Kind.struct else if v = "{A" then some Kind.array else if v = "{L" then some Kind.list else none)
+          let (kids, r1) ← parseNodes f rest' true
+          let (sibs, r2) ← parseNodes f r1 close
+          pure (.cons (.cont tag k kids) sibs, r2)
+        else do
+          let p ← parsePrim v
+          let (sibs, r2) ← parseNodes f rest' close
+          pure (.cons (.leaf tag p) sibs, r2)
+
+def parseTree (s : String) : Option Value :=
+  let toks := words s
+  match parseNodes (toks.length + 1) toks false with
+  | some (.cons v .nil, []) => some v
+  | _ => none
+
+/-! ### oracle helpers (no model involved) -/
+def isPrefixB : Bytes → Bytes → Bool
+  | [], _ => true
+  | _ :: _, [] => false
+  | a :: as, b :: bs => a == b && isPrefixB as bs
+
+def isInfixB (needle : Bytes) : Bytes → Bool
+  | [] => needle.isEmpty
+  | b :: bs => isPrefixB needle (b :: bs) || isInfixB needle bs
+
+def okPayload (out : String) : Option String :=
+  if out = "ok" then some "" else if out.startsWith "ok:" then some (out.drop 3).toString else none
+
+/-- `[a,b,e:x]` → items -/
+def listItems (out : String) : Option (List String) :=
+  if out.startsWith "[" ∧ out.endsWith "]" then
+    let inner := ((out.drop 1).dropEnd 1).toString
+    some (if inner = "" then [] else inner.splitOn ",")
+  else none
+
+/-- iterator specification: finitely many items, elements are strictly shrinking suffixes of the
+sequence, nothing follows an error -/
+def iterSpec (items : List String) (bound : Nat) : Option String :=
+  let rec go (prev : Nat) : List String → Option String
+    | [] => none
+    | x :: rest =>
+      if x.startsWith "e:" then (if rest.isEmpty then none else some "items after an error (iterator not fused)")
+      else match x.toNat? with
+        | some n => if n < prev then go n rest else some s!"element of length {n} after one of length {prev}"
+        | none => go prev rest
+  go (bound + 1) items
+
+structure St where
+  kind : String := ""
+  bytes : Bytes := []
+  sname : String := ""
+  /-- (hex written, canonical tree) of the `write`/`iterwrite` ops of this case -/
+  written : List (String × String) := []
+  /-- (hex, slots) of the `enc` ops of this case -/
+  encoded : List (String × String) := []
+  /-- implementation's `container_len` of this case, if seen -/
+  clen : Option Nat := none
+
+def natArg (ws : List String) : Nat := (ws.getD 1 "0").toNat?.getD 0
+
+/-- the model's answer for an accessor op; `none` = no model for this op (oracle only) -/
+def modelAcc (bs : Bytes) (ws : List String) : Option String :=
+  let seq := containerOf bs
+  let onSeq (f : Bytes → String) : String := match seq with | .ok s => f s | _ => "nc"
+  match ws.getD 0 "" with
+  | "control" => some <| fmtRes (control bs) fun c => s!"{c.tag.code},{c.vt.code}"
+  | "tag" => some <| fmtRes (tagOf bs) tagTok
+  | "value" => some <| fmtRes (valueOf bs) tvalTok
+  | "raw_value" => some <| fmtRes (rawValue bs) hex
+  | "container_len" => some <| fmtRes (containerLen bs) toString
+  | "i8" => some <| fmtRes (i8 bs) toString
+  | "u8" => some <| fmtRes (u8 bs) toString
+  | "i16" => some <| fmtRes (i16 bs) toString
+  | "u16" => some <| fmtRes (u16 bs) toString
+  | "i32" => some <| fmtRes (i32 bs) toString
+  | "u32" => some <| fmtRes (u32 bs) toString
+  | "i64" => some <| fmtRes (i64 bs) toString
+  | "u64" => some <| fmtRes (u64 bs) toString
+  | "f32" => some <| fmtRes (f32 bs) toString
+  | "f64" => some <| fmtRes (f64 bs) toString
+  | "str" => some <| fmtRes (strOf bs) hex
+  | "utf8" => some <| fmtRes (utf8Of bs) hex
+  | "octets" => some <| fmtRes (octetsOf bs) hex
+  | "bool" => some <| fmtRes (boolOf bs) fun b => if b then "1" else "0"
+  | "null" => some <| fmtRes (nullOf bs) fun _ => ""
+  | "is_container" => some <| fmtRes (isContainerOf bs) fun b => if b then "1" else "0"
+  | "structure" => some <| fmtRes (structOf bs) fun s => toString s.length
+  | "array" => some <| fmtRes (arrayOf bs) fun s => toString s.length
+  | "list" => some <| fmtRes (listOf bs) fun s => toString s.length
+  | "container" => some <| fmtRes (containerOf bs) fun s => toString s.length
+  | "confirm_anon" => some <| fmtRes (confirmAnon bs) fun _ => ""
+  | "ctx" => some <| fmtRes (ctxOf bs) toString
+  | "try_ctx" => some <| fmtRes (tryCtx bs) fun o => match o with | some n => toString n | none => "none"
+  | "is_empty" => some (if bs.isEmpty then "ok:1" else "ok:0")
+  | "tree" => some <| fmtRes (decodeTree 40 bs) treeStr
+  | "reencode" => some <| fmtRes (reencode bs) hex
+  | "reencode_iter" => some <| fmtRes (reencodeIter bs) hex
+  | "iter" => some <| onSeq fun s =>
+      "[" ++ ",".intercalate ((elements s).map fun r => match r with
+        | .ok e => toString e.length | .err e => "e:" ++ errName e | .panic .fuel => "hang" | .panic _ => "panic") ++ "]"
+  | "tlviter" => some <| onSeq fun s =>
+      "[" ++ ",".intercalate ((tlvElements s).map fun r => match r with
+        | .ok (t, v) => tagTok t ++ "=" ++ tvalTok v | .err e => "e:" ++ errName e | .panic .fuel => "hang" | .panic _ => "panic") ++ "]"
+  | "find_ctx" => some <| onSeq fun s => fmtRes (findCtx s (natArg ws)) fun e => toString e.length
+  | "seq_ctx" => some <| onSeq fun s => fmtRes (seqCtx s (natArg ws)) fun e => toString e.length
+  | "scan_ctx" => some <| onSeq fun s => fmtRes (scanCtx s (natArg ws)) fun (e, s') => s!"{e.length}:{s'.length}"
+  | "seq_raw_value" => some <| onSeq fun s => fmtRes (rawValue s) hex
+  | "fmt" => none
+  | _ => none
+
+/-- specification of the property on one accessor output -/
+def oracleAcc (st : St) (ws : List String) (out : String) : Option String :=
+  let bs := st.bytes
+  if out = "panic" then some "panic (arithmetic overflow / failed unwrap / out-of-range access) on untrusted input"
+  else if (out.splitOn "hang").length > 1 then some "unbounded loop: iterator or accessor did not finish within len+2 steps"
+  else
+    let name := ws.getD 0 ""
+    match okPayload out with
+    | some p =>
+      if name = "container_len" then
+        match p.toNat? with
+        | some n => if n ≤ bs.length then none else some s!"reported element length {n} exceeds the input length {bs.length}"
+        | none => none
+      else if name = "raw_value" ∨ name = "str" ∨ name = "utf8" ∨ name = "octets" ∨ name = "seq_raw_value" then
+        match unhex p with
+        | some v => if isInfixB v bs then none else some "returned slice is not a sub-slice of the input"
+        | none => none
+      else if name = "structure" ∨ name = "array" ∨ name = "list" ∨ name = "container" then
+        match p.toNat? with
+        | some n => if n < bs.length then none else some "container content not inside the input"
+        | none => none
+      else if name = "reencode" ∨ name = "reencode_iter" then
+        match unhex p with
+        | some v =>
+          if !isPrefixB v bs then some "re-encoding a decoded element does not reproduce its bytes"
+          else match st.clen with
+            | some n =>
+              -- an end-of-container marker is not an element (read.rs: "formally speaking, is not a TLVElement")
+              let isEnd : Bool := match bs with | b :: _ => b.toNat % 32 == 24 | [] => true
+              if v.length = n || isEnd then none else some s!"re-encoding produced {v.length} bytes, the element has {n}"
+            | none => none
+        | none => none
+      else none
+    | none =>
+      if name = "iter" ∨ name = "tlviter" then
+        match listItems out with
+        | some items => if name = "iter" then iterSpec items bs.length else
+            (if items.dropLast.any (fun x => x.startsWith "e:") then some "items after an error (iterator not fused)" else none)
+        | none => none
+      else none
+
+def step (st : St) (line : String) : St × String :=
+  let (op, out) := splitArrow line
+  let ws := words op
+  match ws with
+  | "case" :: _ :: k :: rest =>
+    if k = "a" then
+      match unhex (rest.getD 0 "-") with
+      | some b => ({ kind := "a", bytes := b }, "case")
+      | none => ({ kind := "a" }, "BAD hex")
+    else if k = "s" then ({ kind := "s", sname := rest.getD 0 "" }, "case")
+    else ({ kind := k }, "case")
+  | [] => (st, "BAD empty")
+  | name :: args =>
+    if st.kind = "a" then
+      let st' := if name = "container_len" then
+          { st with clen := (okPayload out).bind String.toNat? } else st
+      match oracleAcc st ws out with
+      | some why => (st', s!"ORA {name}: {why}")
+      | none =>
+        match modelAcc st.bytes ws with
+        | some m => if m = out then (st', "ok") else (st', s!"DIS {m}")
+        | none => (st', "ok")
+    else if st.kind = "w" then
+      let rest := " ".intercalate args
+      if out = "panic" ∨ out = "hang" then (st, s!"ORA {name}: {out} while writing / decoding a value tree") else
+      if name = "write" ∨ name = "iterwrite" then
+        match parseTree rest with
+        | none => (st, "BAD tree")
+        | some v =>
+          let m := "ok:" ++ hex (encode v)
+          let st' := match okPayload out with
+            | some h => { st with written := (h, treeStr v) :: st.written }
+            | none => st
+          if (okPayload out).isNone then (st', s!"ORA {name}: the writer rejected a well-formed tree ({out})")
+          else if m = out then (st', "ok") else (st', s!"DIS {m.take 200}")
+      else if name = "decode" then
+        let want := st.written.find? (fun (h, _) => h = rest)
+        match want with
+        | some (_, t) =>
+          if out ≠ "ok:" ++ t then (st, s!"ORA decode: a written value tree does not decode back to an equal value (got {out.take 120})")
+          else
+            match unhex rest with
+            | some b => let m := fmtRes (decodeTree 40 b) treeStr
+                        if m = out then (st, "ok") else (st, s!"DIS {m.take 200}")
+            | none => (st, "BAD hex")
+        | none =>
+          match unhex rest with
+          | some b => let m := fmtRes (decodeTree 40 b) treeStr
+                      if m = out then (st, "ok") else (st, s!"DIS {m.take 200}")
+          | none => (st, "BAD hex")
+      else (st, "BAD op")
+    else if st.kind = "s" then
+      if out = "panic" ∨ out = "hang" then (st, s!"ORA {name}: {out} in a derived structure codec") else
+      if name = "enc" then
+        let slots := " ".intercalate args
+        let st' := match okPayload out with
+          | some h => { st with encoded := (h, slots) :: st.encoded }
+          | none => st
+        match TlvSchema.encodeNamed st.sname args with
+        | some b => if "ok:" ++ hex b = out then (st', "ok") else
+            (if (okPayload out).isNone then (st', s!"ORA enc: derived encoder rejected an in-range value ({out})") else (st', s!"DIS ok:{hex b}"))
+        | none => (st', "BAD slots")
+      else if name = "dec" then
+        let h := args.getD 0 "-"
+        match st.encoded.find? (fun (x, _) => x = h) with
+        | some (_, slots) =>
+          if out ≠ "ok:" ++ slots then (st, s!"ORA dec: a derived structure does not decode back to an equal value (got {out.take 120})")
+          else (st, "ok")
+        | none =>
+          -- mutated encodings: the derived decoder may accept or reject, the model says which
+          match unhex h with
+          | some b =>
+            match TlvSchema.decodeNamed st.sname b with
+            | some (some slots) => if out = "ok:" ++ " ".intercalate slots then (st, "ok") else (st, s!"DIS ok:{" ".intercalate slots}")
+            | some none => if out.startsWith "e:" then (st, "ok") else (st, "DIS e:*")
+            | none => (st, "ok")
+          | none => (st, "BAD hex")
+      else (st, "BAD op")
+    else (st, "BAD kind")
+
+def run : IO UInt32 := Driver.runLoop ({} : St) step
 
 end Driver.C16
